@@ -758,7 +758,41 @@ func c15SortedKeys(m map[string]bool) []string {
 	return l
 }
 
+// the accessor values of the scenario's event against the model's reading of the event text
+type c15FieldsScen struct {
+	Ver string    `json:"ver"`
+	Ev  c15EvScen `json:"ev"`
+}
+
+func c15FieldsImpl(args [][]byte) ([][]byte, []byte) {
+	var s c15FieldsScen
+	if err := json.Unmarshal(args[0], &s); err != nil {
+		panic(err)
+	}
+	ver := gmsl.RoomVersion(s.Ver)
+	raw := c15MakeEvent(ver, s.Ev)
+	ev, err := gmsl.MustGetRoomVersion(ver).NewEventFromUntrustedJSON(raw)
+	if err != nil {
+		return [][]byte{args[0], []byte(""), raw}, []byte("unparsable")
+	}
+	opt := func(p *string) string {
+		if p == nil {
+			return "nil"
+		}
+		return "=" + *p
+	}
+	var m *string
+	if v, merr := ev.Membership(); merr == nil {
+		m = &v
+	}
+	var mc gmsl.MemberContent
+	_ = json.Unmarshal(ev.Content(), &mc)
+	out := strings.Join([]string{ev.Type(), opt(ev.StateKey()), string(ev.SenderID()), ev.RoomID().String(), ev.EventID(), opt(m), mc.AuthorisedVia}, "|")
+	return [][]byte{args[0], []byte(ev.EventID()), append([]byte{}, ev.JSON()...)}, []byte(out)
+}
+
 func init() {
+	RegisterImpl("C15.fields", c15FieldsImpl)
 	RegisterImpl("C15.send_join", c15SendJoin)
 	RegisterImpl("C15.invite", c15Invite)
 	RegisterProp("C15", genC15)
@@ -853,6 +887,10 @@ func genC15SendJoin(c *Ctx) {
 			m.f(&s)
 			c.c15Run("C15.send_join", s, "send_join v"+v+" "+m.name)
 			c.Count("send_join/single/" + m.name)
+			if _, err := gmsl.GetRoomVersion(gmsl.RoomVersion(v)); err == nil && s.Ev.Extra == "" && !(v == "12" && s.Ev.Type == "m.room.create") {
+				c.Run("C15.fields", [][]byte{c15JSON(c15FieldsScen{Ver: v, Ev: s.Ev})}, "C15.fields", "", "fields of the send_join event v"+v+" "+m.name)
+				c.Count("fields")
+			}
 		}
 	}
 	// pairs of deviations (guard order) on v10, v1 and the pseudo-ID version
@@ -953,6 +991,10 @@ func genC15Invite(c *Ctx) {
 			m.f(&s)
 			c.c15Run("C15.invite", s, "invite v"+v+" "+m.name)
 			c.Count("invite/single/" + m.name)
+			if _, err := gmsl.GetRoomVersion(gmsl.RoomVersion(v)); err == nil {
+				c.Run("C15.fields", [][]byte{c15JSON(c15FieldsScen{Ver: v, Ev: s.Ev})}, "C15.fields", "", "fields of the invite event v"+v+" "+m.name)
+				c.Count("fields")
+			}
 		}
 	}
 	for _, v := range []string{"10", "1"} {
